@@ -166,7 +166,7 @@ impl G<'_> {
             let b = self.blk(t, d1, true);
             return E::Ite(Box::new(c), a, b);
         }
-        if shared < 15 && t != T::V && !self.frag {
+        if shared < 15 && t != T::V {
             return self.match_(t, d1);
         }
         if shared < 23 {
@@ -359,7 +359,8 @@ impl G<'_> {
     }
 
     fn match_(&mut self, t: T, d: u32) -> E {
-        let is_opt = self.p.chance(1, 2);
+        // inside the fragment of the lowering model only `i32?` examinees (no enum constructors yet)
+        let is_opt = self.frag || self.p.chance(1, 2);
         let mut s = self.expr(if is_opt { T::O } else { T::E }, d);
         if is_opt && open_none(&s) {
             // `match Option.None { Some(x) => … }` leaves the payload type open while the arms are checked
